@@ -15,6 +15,19 @@
 //! * `sess n lo hi reuse inuse taken` - a real `Session` built with `SessionBuilder::{local_ip_address,
 //!   shard_aware_local_port_range, tcp_reuse_address}` against a one-node mock cluster; output: per shard the source
 //!   port of the pool's connection when it lies in the configured range, else `x`.
+//! * `sessx n lo hi reuse inuse taken` - the same real `Session`, but SOME SHARD HAS NO USABLE PORT in the configured range
+//!   (the range is shorter than the shard count, or every port of the shard is busy): the refiller's shard-aware
+//!   attempt for it (`PoolRefiller::start_opening_connection`, `connection_pool.rs:1041-1095`) must end with
+//!   `NoSourcePortForShard` and be followed by a plain attempt. The driver's FALLBACK ports, had it any - the ports of
+//!   those shards in 49152..=<top of the OS's ephemeral range> outside the configured range - are held busy too, so a
+//!   driver that walks any other range ends up on a port that neither the configuration nor the OS can explain.
+//!   Output: `shards <per shard: port in the configured range | x> outside <number of connections from a source port
+//!   that lies neither in the configured range nor in the OS's ephemeral range>`.
+//! * `poolx n lo hi reuse inuse taken` - the same starved ranges against the real `NodeConnectionPool` / `PoolRefiller`
+//!   (`VerifPool::new_with_ports`) and a node with TWO listeners, the regular port and a distinct SCYLLA_SHARD_AWARE_PORT:
+//!   what arrives at the shard-aware listener is exactly what `start_opening_connection`'s shard-aware arm opened.
+//!   Output as `sessx`; `outside` counts shard-aware connections from outside the configured range plus regular
+//!   connections from inside it.
 //! * `features plain <shard> <nr> <msb> <port> <portssl>` - a real `open_connection` against a node whose SUPPORTED
 //!   carries these entries; output what the connection kept: `info=<s>/<n>/<m>|none port=<p>|none`.
 //! * `drawpub n s k` / `iterpub n s` - the PUBLIC wrappers over the fixed ephemeral range, under `catch_unwind`.
@@ -204,6 +217,54 @@ fn gen_sess(rng: &mut Rng) -> String {
     format!("sess {} {} {} {} {} {}", n, lo, hi, (!taken.is_empty() || rng.bool()) as u8, nat_list(&inuse), nat_list(&taken))
 }
 
+/// A session whose configured range has NO usable port for at least one shard.
+fn gen_sessx(rng: &mut Rng) -> String {
+    let n = rng.range(2, 6) as u16;
+    let (mut inuse, mut taken) = (Vec::new(), Vec::new());
+    let (lo, hi) = match rng.below(3) {
+        // shorter than the shard count: n - len residues have no port at all
+        0 => {
+            let len = rng.range(1, n as i64 - 1) as u16;
+            let lo = match rng.below(3) {
+                0 => 65535 - (len - 1),
+                1 => rng.range(1024, 9000) as u16,
+                _ => rng.range(61500, 65535 - len as i64) as u16,
+            };
+            (lo, lo + (len - 1))
+        }
+        // every shard has ports, but all ports of one or two shards are busy
+        _ => {
+            let per_shard = rng.range(1, 4) as u16;
+            let len = n * per_shard + rng.below(n as u64) as u16;
+            let lo = match rng.below(3) {
+                0 => 65535 - (len - 1),
+                1 => rng.range(1024, 9000) as u16,
+                _ => rng.range(61500, 65535 - len as i64) as u16,
+            };
+            let hi = lo + (len - 1);
+            let starved = rng.below(n as u64) as u16;
+            let starved2 = if rng.chance(1, 3) { rng.below(n as u64) as u16 } else { starved };
+            for s in 0..n {
+                let mut valid: Vec<u16> = (lo..=hi).filter(|p| p % n == s).collect();
+                let kb = if s == starved || s == starved2 {
+                    valid.len()
+                } else if rng.bool() {
+                    0
+                } else {
+                    valid.len() - 1
+                };
+                for p in take_some(rng, &mut valid, kb) {
+                    if rng.chance(1, 2) { taken.push(p) } else { inuse.push(p) }
+                }
+            }
+            (lo, hi)
+        }
+    };
+    inuse.sort_unstable();
+    taken.sort_unstable();
+    format!("sessx {} {} {} {} {} {}", n, lo, hi, (!taken.is_empty() || rng.bool()) as u8, nat_list(&inuse), nat_list(&taken))
+}
+
 pub fn generate(rng: &mut Rng, tier: Tier, emit: &mut dyn FnMut(String)) {
     let scale: u64 = if tier == Tier::Quick { 1 } else { 12 };
     // ShardAwarePortRange::new: the boundary grid, then random
@@ -255,6 +316,14 @@ pub fn generate(rng: &mut Rng, tier: Tier, emit: &mut dyn FnMut(String)) {
     for _ in 0..10 * scale {
         emit(gen_sess(rng));
     }
+    // a real Session whose configured range starves some shard: the refiller's use of the configured range
+    for _ in 0..60 * scale {
+        emit(gen_sessx(rng));
+    }
+    // the same against the bare pool and a node whose shard-aware port is a listener of its own
+    for _ in 0..120 * scale {
+        emit(gen_sessx(rng).replacen("sessx", "poolx", 1));
+    }
 }
 
 // ---------------------------------------------------------------------------------------------------------------
@@ -293,10 +362,16 @@ enum Script {
     ByPort(u16),
     /// these SUPPORTED entries, literally
     Entries(Vec<(String, Vec<String>)>),
+    /// as `ByPort`, and SUPPORTED advertises this SCYLLA_SHARD_AWARE_PORT (a listener of its own: `poolx`)
+    ByPortAware(u16, u16),
 }
 
 async fn start_mini(ip: IpAddr, script: Script, broken: BTreeSet<u16>) -> std::io::Result<MiniNode> {
     let listener = TcpListener::bind(SocketAddr::from((ip, 0))).await?;
+    start_mini_on(listener, script, broken)
+}
+
+fn start_mini_on(listener: TcpListener, script: Script, broken: BTreeSet<u16>) -> std::io::Result<MiniNode> {
     let addr = listener.local_addr()?;
     let accepted: Arc<Mutex<Vec<u16>>> = Arc::new(Mutex::new(Vec::new()));
     let acc2 = Arc::clone(&accepted);
@@ -332,6 +407,12 @@ async fn start_mini(ip: IpAddr, script: Script, broken: BTreeSet<u16>) -> std::i
                                     entries.push(("SCYLLA_SHARD".into(), vec![(peer.port() % n).to_string()]));
                                     entries.push(("SCYLLA_NR_SHARDS".into(), vec![n.to_string()]));
                                     entries.push(("SCYLLA_SHARDING_IGNORE_MSB".into(), vec![MSB.to_string()]));
+                                }
+                                Script::ByPortAware(n, aware) => {
+                                    entries.push(("SCYLLA_SHARD".into(), vec![(peer.port() % n).to_string()]));
+                                    entries.push(("SCYLLA_NR_SHARDS".into(), vec![n.to_string()]));
+                                    entries.push(("SCYLLA_SHARDING_IGNORE_MSB".into(), vec![MSB.to_string()]));
+                                    entries.push(("SCYLLA_SHARD_AWARE_PORT".into(), vec![aware.to_string()]));
                                 }
                                 Script::Entries(es) => entries.extend(es.iter().cloned()),
                             }
@@ -689,6 +770,266 @@ fn run_sess(w: &[&str], ctx: &mut Ctx) -> String {
 }
 
 // ---------------------------------------------------------------------------------------------------------------
+// sessx
+// ---------------------------------------------------------------------------------------------------------------
+
+fn run_sessx(w: &[&str], ctx: &mut Ctx) -> String {
+    if w.len() != 7 {
+        return "bad-case".into();
+    }
+    let (Ok(n), Ok(lo), Ok(hi), Ok(reuse)) = (w[1].parse::<u16>(), w[2].parse::<u16>(), w[3].parse::<u16>(), w[4].parse::<u8>()) else {
+        return "bad-case".into();
+    };
+    let (Some(inuse), Some(taken)) = (parse_list(w[5]), parse_list(w[6])) else { return "bad-case".into() };
+    let Ok(range) = ShardAwarePortRange::new(lo..=hi) else { return "bad-case".into() };
+    if n == 0 || n > 64 {
+        return "bad-case".into();
+    }
+    let (elo, ehi) = os_ephemeral();
+    if lo <= ehi && elo <= hi {
+        return "skip range-overlaps-os-ephemeral-range".into();
+    }
+    let busy: BTreeSet<u16> = inuse.iter().chain(taken.iter()).copied().collect();
+    let should_be_free: Vec<u16> = (lo..=hi).filter(|p| !busy.contains(p)).collect();
+    // brute force: the shards for which the configured range has no usable port
+    let starved: Vec<u16> = (0..n).filter(|s| !(lo..=hi).any(|p| p % n == *s && !busy.contains(&p))).collect();
+    // the ports a driver that gave "the default ephemeral ports a chance" would come from and that the OS could have
+    // chosen as well: held busy, so that such a driver is pushed to a port nothing but its own choice explains
+    let fallback: Vec<u16> = (49152..=ehi.max(49151)).filter(|p| !(lo..=hi).contains(p) && starved.contains(&(p % n))).collect();
+    if fallback.len() > 12_000 {
+        return "skip too-many-fallback-ports".into();
+    }
+    let rt = mockcluster::runtime(1);
+    rt.block_on(async {
+        let (_, local) = case_ips();
+        let topo = Topology {
+            nodes: vec![NodeSpec { host_id: mockcluster::host_id_of(0), dc: "dc1".into(), rack: "r1".into(), tokens: vec![0], shards: ShardMode::ByPort(n, MSB) }],
+            keyspaces: vec![],
+            tablets_ext: false,
+        };
+        let cluster = MockCluster::start(topo, Box::new(|_| vec![mockcluster::act_void()])).await;
+        let node = cluster.addr(0);
+        let _holders = match hold_ports(IpAddr::V4(local), IpAddr::V4(local), node, &should_be_free, &inuse, &taken, false).await {
+            Ok(h) => h,
+            Err(why) => return format!("skip {why}"),
+        };
+        let mut fallback_holders = Vec::with_capacity(fallback.len());
+        for &p in &fallback {
+            let Ok(sock) = TcpSocket::new_v4() else { return "skip fallback-socket".to_owned() };
+            if sock.bind(SocketAddr::new(IpAddr::V4(local), p)).is_err() {
+                return format!("skip fallback-port-not-free:{p}");
+            }
+            fallback_holders.push(sock);
+        }
+        let builder = cluster
+            .session_builder()
+            .local_ip_address(Some(IpAddr::V4(local)))
+            .shard_aware_local_port_range(range)
+            .tcp_reuse_address(reuse != 0);
+        // the holders' own connections (the `taken` ports) are in the node's log already: everything after is the driver's
+        let t_hold = std::time::Instant::now();
+        while cluster.conns().len() < taken.len() {
+            if t_hold.elapsed() > Duration::from_secs(5) {
+                return "skip holders-not-accepted".to_owned();
+            }
+            tokio::time::sleep(Duration::from_millis(1)).await;
+        }
+        let base = cluster.conns().len();
+        let Ok(session) = builder.build().await else { return "skip session-build-failed".to_owned() };
+        // settle: every shard that has a usable port is connected to, and no new connection for a while
+        let from_local = |c: &mockcluster::ConnInfo| c.peer.ip() == IpAddr::V4(local) && c.conn >= base;
+        let t0 = std::time::Instant::now();
+        // (a pool with a starved shard never gets full: the refiller keeps asking for that shard, is answered
+        // NoSourcePortForShard, opens a plain connection instead, and whether the node ever puts one on the starved
+        // shard is the node's business - so there is nothing to wait for beyond the first fill and its follow-ups)
+        let mut served_at: Option<std::time::Instant> = None;
+        loop {
+            let conns = cluster.conns();
+            let served = (0..n).filter(|s| !starved.contains(s)).all(|s| conns.iter().any(|c| from_local(c) && !c.control && c.ready.is_some() && c.closed.is_none() && c.shard == Some(s)));
+            if served && served_at.is_none() {
+                served_at = Some(std::time::Instant::now());
+            }
+            if served_at.is_some_and(|t| t.elapsed() > Duration::from_millis(60)) {
+                break;
+            }
+            if t0.elapsed() > Duration::from_secs(5) {
+                if std::env::var_os("VERIF_C11_TRACE").is_some() {
+                    for c in &conns {
+                        eprintln!("conn {} peer={} shard={:?} control={} ready={:?} closed={:?}", c.conn, c.peer, c.shard, c.control, c.ready, c.closed);
+                    }
+                }
+                return "skip not-settled".to_owned();
+            }
+            tokio::time::sleep(Duration::from_millis(5)).await;
+        }
+        let conns = cluster.conns();
+        if std::env::var_os("VERIF_C11_TRACE").is_some() {
+            for c in &conns {
+                eprintln!("conn {} peer={} shard={:?} control={} ready={:?} closed={:?}", c.conn, c.peer, c.shard, c.control, c.ready, c.closed);
+            }
+        }
+        // (1) EVERY connection the driver made (alive or not, control or pool) comes from a source port that either lies
+        // in the configured range - then a usable port - or was assigned by the operating system
+        let mut outside = 0;
+        for c in conns.iter().filter(|c| from_local(c)) {
+            let p = c.peer.port();
+            if (lo..=hi).contains(&p) {
+                if busy.contains(&p) {
+                    ctx.fail(format!("connection from source port {p}, which is busy"));
+                }
+            } else if !(elo..=ehi).contains(&p) {
+                outside += 1;
+                ctx.fail(format!(
+                    "connection from source port {p} (shard {} of {n}): outside the configured range [{lo},{hi}], and not the operating system's choice either (it assigns {elo}..={ehi}) - the driver produced a source port outside the allowed range{}",
+                    p % n,
+                    if starved.contains(&(p % n)) { ", for a shard that has no usable port in it (NoSourcePortForShard is due)" } else { "" }
+                ));
+            }
+        }
+        // (2) per shard: the live pool connection from the configured range
+        let mut words = Vec::new();
+        for s in 0..n {
+            let in_range: Vec<u16> = conns
+                .iter()
+                .filter(|c| c.ready.is_some() && c.closed.is_none() && !c.control && c.shard == Some(s) && from_local(c))
+                .map(|c| c.peer.port())
+                .filter(|p| (lo..=hi).contains(p))
+                .collect();
+            match in_range.first() {
+                Some(&p) => {
+                    if starved.contains(&s) {
+                        ctx.fail(format!("shard {s} has no usable source port in [{lo},{hi}], yet a pool connection comes from {p}"));
+                    }
+                    words.push(p.to_string());
+                }
+                None => words.push("x".to_owned()),
+            }
+        }
+        drop(session);
+        drop(fallback_holders);
+        format!("shards {} outside {}", words.join(","), outside)
+    })
+}
+
+// ---------------------------------------------------------------------------------------------------------------
+// poolx
+// ---------------------------------------------------------------------------------------------------------------
+
+fn run_poolx(w: &[&str], ctx: &mut Ctx) -> String {
+    use scylla::client::PoolSize;
+    use scylla::verif_hooks::pool::VerifPool;
+    if w.len() != 7 {
+        return "bad-case".into();
+    }
+    let (Ok(n), Ok(lo), Ok(hi), Ok(reuse)) = (w[1].parse::<u16>(), w[2].parse::<u16>(), w[3].parse::<u16>(), w[4].parse::<u8>()) else {
+        return "bad-case".into();
+    };
+    let (Some(inuse), Some(taken)) = (parse_list(w[5]), parse_list(w[6])) else { return "bad-case".into() };
+    let Ok(range) = ShardAwarePortRange::new(lo..=hi) else { return "bad-case".into() };
+    if n == 0 || n > 64 {
+        return "bad-case".into();
+    }
+    let (elo, ehi) = os_ephemeral();
+    if lo <= ehi && elo <= hi {
+        return "skip range-overlaps-os-ephemeral-range".into();
+    }
+    let busy: BTreeSet<u16> = inuse.iter().chain(taken.iter()).copied().collect();
+    let should_be_free: Vec<u16> = (lo..=hi).filter(|p| !busy.contains(p)).collect();
+    let starved: Vec<u16> = (0..n).filter(|s| !(lo..=hi).any(|p| p % n == *s && !busy.contains(&p))).collect();
+    let rt = mockcluster::runtime(1);
+    rt.block_on(async {
+        let (node_ip, local) = case_ips();
+        let Ok(aware_listener) = TcpListener::bind(SocketAddr::from((node_ip, 0))).await else { return "skip listen".to_owned() };
+        let Ok(aware_addr) = aware_listener.local_addr() else { return "skip listen".to_owned() };
+        let script = Script::ByPortAware(n, aware_addr.port());
+        let Ok(aware) = start_mini_on(aware_listener, script.clone(), BTreeSet::new()) else { return "skip listen".to_owned() };
+        let Ok(main) = start_mini(IpAddr::V4(node_ip), script, BTreeSet::new()).await else { return "skip listen".to_owned() };
+        if (lo..=hi).contains(&aware.addr.port()) || (lo..=hi).contains(&main.addr.port()) {
+            return "skip node-port-in-range".to_owned();
+        }
+        // the `taken` ports are established connections to the SHARD-AWARE address (the 4-tuple the driver would use)
+        let _holders = match hold_ports(IpAddr::V4(local), IpAddr::V4(local), aware.addr, &should_be_free, &inuse, &taken, false).await {
+            Ok(h) => h,
+            Err(why) => return format!("skip {why}"),
+        };
+        let t0 = std::time::Instant::now();
+        while aware.accepted.lock().unwrap().len() < taken.len() {
+            if t0.elapsed() > Duration::from_secs(5) {
+                return "skip holders-not-accepted".to_owned();
+            }
+            tokio::time::sleep(Duration::from_millis(1)).await;
+        }
+        let base = aware.accepted.lock().unwrap().len();
+        let Ok(pool) = VerifPool::new_with_ports(
+            main.addr,
+            PoolSize::PerShard(std::num::NonZeroUsize::new(1).unwrap()),
+            true,
+            Some(IpAddr::V4(local)),
+            range,
+            if reuse != 0 { Some(true) } else { None },
+            Some(Duration::from_secs(5)),
+            None,
+        ) else {
+            return "skip pool".to_owned();
+        };
+        pool.wait_until_initialized().await;
+        // settle: every shard with a usable port has been connected to; then the follow-ups of the first fill
+        let t0 = std::time::Instant::now();
+        let mut served_at: Option<std::time::Instant> = None;
+        loop {
+            let a: Vec<u16> = aware.accepted.lock().unwrap()[base..].to_vec();
+            let m: Vec<u16> = main.accepted.lock().unwrap().clone();
+            // regular connections due: the pool's first one, and one follow-up per starved shard it asked for
+            let due = 1 + starved.iter().filter(|s| m.first().map(|p| p % n) != Some(**s)).count();
+            let served = (0..n).filter(|s| !starved.contains(s)).all(|s| a.iter().chain(m.iter()).any(|p| p % n == s))
+                && (m.len() >= due || a.iter().any(|p| !(lo..=hi).contains(p)) || t0.elapsed() > Duration::from_millis(1500));
+            if served && served_at.is_none() {
+                served_at = Some(std::time::Instant::now());
+            }
+            if served_at.is_some_and(|t| t.elapsed() > Duration::from_millis(60)) {
+                break;
+            }
+            if t0.elapsed() > Duration::from_secs(5) {
+                return "skip not-settled".to_owned();
+            }
+            tokio::time::sleep(Duration::from_millis(5)).await;
+        }
+        let a: Vec<u16> = aware.accepted.lock().unwrap()[base..].to_vec();
+        let m: Vec<u16> = main.accepted.lock().unwrap().clone();
+        let mut outside = 0;
+        // what reached the shard-aware listener was opened by start_opening_connection's shard-aware arm: the property's
+        // port clauses, said of the pool - in the configured range, a usable port (congruence is the node's own reading)
+        for &p in &a {
+            if !(lo..=hi).contains(&p) {
+                outside += 1;
+                ctx.fail(format!(
+                    "shard-aware connection from source port {p} (shard {} of {n}), outside the configured range [{lo},{hi}]{}",
+                    p % n,
+                    if starved.contains(&(p % n)) { ": the range has no usable port of that shard, NoSourcePortForShard is due and nothing may be produced" } else { "" }
+                ));
+            } else if busy.contains(&p) {
+                ctx.fail(format!("shard-aware connection from source port {p}, which is busy"));
+            }
+        }
+        // a regular connection's source port is the operating system's: never one of the configured range
+        for &p in &m {
+            if (lo..=hi).contains(&p) {
+                outside += 1;
+                ctx.fail(format!("connection to the regular port from source port {p} of the configured range [{lo},{hi}] (the OS assigns {elo}..={ehi})"));
+            }
+        }
+        // a starved shard must have been given up for a regular connection: at least one per starved shard
+        let due = 1 + starved.iter().filter(|s| m.first().map(|p| p % n) != Some(**s)).count();
+        if m.len() < due {
+            ctx.fail(format!("{} shards have no usable port, but only {} connections went to the regular port ({due} are due: the first one and one follow-up per NoSourcePortForShard)", starved.len(), m.len()));
+        }
+        let words: Vec<String> = (0..n).map(|s| a.iter().find(|p| **p % n == s && (lo..=hi).contains(*p)).map(|p| p.to_string()).unwrap_or_else(|| "x".to_owned())).collect();
+        drop(pool);
+        format!("shards {} outside {}", words.join(","), outside)
+    })
+}
+
+// ---------------------------------------------------------------------------------------------------------------
 // features
 // ---------------------------------------------------------------------------------------------------------------
 
@@ -850,6 +1191,8 @@ pub fn run(w: &[&str], ctx: &mut Ctx) -> Option<String> {
     Some(match w[0] {
         "conn" | "conn6" => run_conn(w, ctx),
         "sess" => run_sess(w, ctx),
+        "sessx" => run_sessx(w, ctx),
+        "poolx" => run_poolx(w, ctx),
         "features" | "features6" => run_features(w, ctx),
         "drawpub" | "iterpub" => run_pub(w, ctx),
         "range" => run_range(w, ctx),
